@@ -566,3 +566,9 @@ MANIFEST_ENTRY = dict(
          'locations stay strictly below the cache directory; lock names are integer-only; tile services forward only configured dimension values.',
     note='String length bound 8 (replace unrolled); request parsing regex not executed symbolically; in-grid coordinates come from C16.',
 )
+
+# --- manifest text refreshed after rounds 6-8 (obligations added since the entry above was written)
+MANIFEST_ENTRY['text'] = MANIFEST_ENTRY['text'] + ' write_atomic temporaries, single-colour link targets and creator lock files stay in their directories; the directories every cache backend and the lock directory are configured with (real configuration loader, relative directory / base_dir / filename as solver strings) lie below the directory of the configuration file.'
+MANIFEST_ENTRY['note'] = 'String length bound 8 for request values, 5 for configured relative names (one path component each); request parsing regex not executed symbolically; in-grid coordinates come from C16; os.path.abspath is a model (join with a working directory different from the configuration directory).'
+META['assumptions'] = list(META.get('assumptions', [])) + ['configured-directories obligations: os.path.abspath(p) = join(working directory of the process, p) with a working directory different from the configuration directory; cache classes are recording stubs']
+META['bounds'] = META.get('bounds', '') + "; configured relative names: one path component of <= 5 characters each (no separator, not '.' or '..')"
